@@ -34,7 +34,7 @@ def pick_value(rng, model, op):
     if op == "SetSigma":
         return [Fraction(0), Fraction(8), cents(rng, 0, 12)][rng.randint(3)]
     if op == "SetN":
-        return cents(rng, 1.5, 6)
+        return Fraction(2) if u < 0.3 else cents(rng, 1.5, 6)   # n = 2: the Friis clause
     if op == "SetArea":
         return AREAS[rng.randint(4)] if u < 0.8 else ["rural", "urban", "Open", ""][rng.randint(4)]
     if op == "SetFc" and model == "freespace":
@@ -79,7 +79,7 @@ def record_one(job):
     elif model == "3gpp1":
         o = P.PathLoss3GPP1()
     elif model == "freespace":
-        n, fc = cents(rng, 2, 4), cents(rng, 1, 3000)
+        n, fc = (Fraction(2) if rng.rand() < 0.3 else cents(rng, 2, 4)), cents(rng, 1, 3000)
         o = P.PathLossFreeSpace(n=float(n), fc=float(fc))
         init.update(n=fr(n), fc=fr(fc))
     elif model == "metis":
@@ -89,6 +89,7 @@ def record_one(job):
     else:
         o = P.PathLossOkomuraHata()
         init.update(fc=[900, 1], hbs=[30, 1], hms=[1, 1], area="suburban")
+    given = {"n": float(Fraction(*init["n"])), "C": float(C)} if model == "general" else {}
     ev = []
     with warnings.catch_warnings():
         warnings.simplefilter("ignore")
@@ -120,8 +121,9 @@ def record_one(job):
                     ev.append(fe)
                     continue
                 res = c13.rel_predicates(model, o, walls=walls, kmin=-3, kmax=3, per_decade=per_decade,
-                                         inverse=model in ("general", "3gpp1", "freespace"))
-                names = ["Monotone", "LinearIsDb", "InUnit", "PolicyArrayScalar", "QueryPure"] + (
+                                         inverse=model in ("general", "3gpp1", "freespace"),
+                                         params=c13.public_params(model, o, given))
+                names = ["Monotone", "LinearIsDb", "InUnit", "PolicyArrayScalar", "QueryPure", "DocValue", "FriisClose"] + (
                     ["InverseId"] if model in ("general", "3gpp1", "freespace") else [])
                 fe["preds"] = {k: res[k] is None for k in names}
                 fe["why"] = {k: v for k, v in res.items() if v}
